@@ -12,6 +12,7 @@
 use rsdd::plan::BottomUpPlan;
 use rsdd::repr::{BddPtr, Cnf, DTree, Literal, LogicalExpr, PartialModel, VarLabel, VarOrder};
 use rsdd_verif_harness::bddprog::*;
+use rsdd_verif_harness::exprs::*;
 use rsdd_verif_harness::*;
 
 pub const PROP: Prop = Prop { gen, run, panic_ok: never };
@@ -20,142 +21,6 @@ fn main() {
     run_main(PROP)
 }
 
-#[derive(Clone, Debug)]
-pub enum Ex { L(u64, bool), T, F, N(Box<Ex>), A(Box<Ex>, Box<Ex>), O(Box<Ex>, Box<Ex>), I(Box<Ex>, Box<Ex>), X(Box<Ex>, Box<Ex>), K(Box<Ex>, Box<Ex>, Box<Ex>) }
-
-fn ex_str(e: &Ex, s: &mut String) {
-    match e {
-        Ex::L(v, p) => s.push_str(&format!(" L {v} {}", *p as u8)),
-        Ex::T => s.push_str(" T"),
-        Ex::F => s.push_str(" F"),
-        Ex::N(a) => { s.push_str(" N"); ex_str(a, s) }
-        Ex::A(a, b) => { s.push_str(" A"); ex_str(a, s); ex_str(b, s) }
-        Ex::O(a, b) => { s.push_str(" O"); ex_str(a, s); ex_str(b, s) }
-        Ex::I(a, b) => { s.push_str(" I"); ex_str(a, s); ex_str(b, s) }
-        Ex::X(a, b) => { s.push_str(" X"); ex_str(a, s); ex_str(b, s) }
-        Ex::K(a, b, c) => { s.push_str(" K"); ex_str(a, s); ex_str(b, s); ex_str(c, s) }
-    }
-}
-fn ex_parse(t: &[&str], i: &mut usize) -> Ex {
-    let k = t[*i];
-    *i += 1;
-    match k {
-        "L" => { let v = t[*i].parse().unwrap(); let p = t[*i + 1] != "0"; *i += 2; Ex::L(v, p) }
-        "T" => Ex::T,
-        "F" => Ex::F,
-        "N" => Ex::N(Box::new(ex_parse(t, i))),
-        "A" => { let a = ex_parse(t, i); let b = ex_parse(t, i); Ex::A(Box::new(a), Box::new(b)) }
-        "O" => { let a = ex_parse(t, i); let b = ex_parse(t, i); Ex::O(Box::new(a), Box::new(b)) }
-        "I" => { let a = ex_parse(t, i); let b = ex_parse(t, i); Ex::I(Box::new(a), Box::new(b)) }
-        "X" => { let a = ex_parse(t, i); let b = ex_parse(t, i); Ex::X(Box::new(a), Box::new(b)) }
-        "K" => { let a = ex_parse(t, i); let b = ex_parse(t, i); let c = ex_parse(t, i); Ex::K(Box::new(a), Box::new(b), Box::new(c)) }
-        _ => panic!("bad expr"),
-    }
-}
-fn ex_eval(e: &Ex, a: usize) -> bool {
-    match e {
-        Ex::L(v, p) => ((a >> v) & 1 == 1) == *p,
-        Ex::T => true,
-        Ex::F => false,
-        Ex::N(x) => !ex_eval(x, a),
-        Ex::A(x, y) => ex_eval(x, a) && ex_eval(y, a),
-        Ex::O(x, y) => ex_eval(x, a) || ex_eval(y, a),
-        Ex::I(x, y) => ex_eval(x, a) == ex_eval(y, a),
-        Ex::X(x, y) => ex_eval(x, a) != ex_eval(y, a),
-        Ex::K(g, t, e) => if ex_eval(g, a) { ex_eval(t, a) } else { ex_eval(e, a) },
-    }
-}
-fn to_logical(e: &Ex) -> LogicalExpr {
-    match e {
-        Ex::L(v, p) => LogicalExpr::Literal(*v as usize, *p),
-        Ex::N(a) => LogicalExpr::Not(Box::new(to_logical(a))),
-        Ex::A(a, b) => LogicalExpr::And(Box::new(to_logical(a)), Box::new(to_logical(b))),
-        Ex::O(a, b) => LogicalExpr::Or(Box::new(to_logical(a)), Box::new(to_logical(b))),
-        Ex::I(a, b) => LogicalExpr::Iff(Box::new(to_logical(a)), Box::new(to_logical(b))),
-        Ex::X(a, b) => LogicalExpr::Xor(Box::new(to_logical(a)), Box::new(to_logical(b))),
-        Ex::K(g, t, e) => LogicalExpr::Ite { guard: Box::new(to_logical(g)), thn: Box::new(to_logical(t)), els: Box::new(to_logical(e)) },
-        Ex::T | Ex::F => panic!("LogicalExpr has no constants"),
-    }
-}
-fn to_plan(e: &Ex) -> BottomUpPlan {
-    match e {
-        Ex::L(v, p) => BottomUpPlan::literal(VarLabel::new(*v), *p),
-        Ex::T => BottomUpPlan::ConstTrue,
-        Ex::F => BottomUpPlan::ConstFalse,
-        Ex::N(a) => BottomUpPlan::not(to_plan(a)),
-        Ex::A(a, b) => BottomUpPlan::and(to_plan(a), to_plan(b)),
-        Ex::O(a, b) => BottomUpPlan::or(to_plan(a), to_plan(b)),
-        Ex::I(a, b) => BottomUpPlan::iff(to_plan(a), to_plan(b)),
-        Ex::K(g, t, e) => BottomUpPlan::ite(to_plan(g), to_plan(t), to_plan(e)),
-        Ex::X(_, _) => panic!("BottomUpPlan has no xor"),
-    }
-}
-fn of_plan(p: &BottomUpPlan) -> Ex {
-    match p {
-        BottomUpPlan::Literal(v, b) => Ex::L(v.value(), *b),
-        BottomUpPlan::ConstTrue => Ex::T,
-        BottomUpPlan::ConstFalse => Ex::F,
-        BottomUpPlan::Not(a) => Ex::N(Box::new(of_plan(a))),
-        BottomUpPlan::And(a, b) => Ex::A(Box::new(of_plan(a)), Box::new(of_plan(b))),
-        BottomUpPlan::Or(a, b) => Ex::O(Box::new(of_plan(a)), Box::new(of_plan(b))),
-        BottomUpPlan::Iff(a, b) => Ex::I(Box::new(of_plan(a)), Box::new(of_plan(b))),
-        BottomUpPlan::Ite(a, b, c) => Ex::K(Box::new(of_plan(a)), Box::new(of_plan(b)), Box::new(of_plan(c))),
-    }
-}
-
-fn gen_ex(rng: &mut Rng, nv: usize, depth: usize, consts: bool, xor: bool) -> Ex {
-    if depth == 0 || rng.chance(1, 5) {
-        if consts && rng.chance(1, 10) { return if rng.coin() { Ex::T } else { Ex::F }; }
-        return Ex::L(rng.below(nv as u64), rng.coin());
-    }
-    let mut sub = |rng: &mut Rng| Box::new(gen_ex(rng, nv, depth - 1, consts, xor));
-    match rng.below(7) {
-        0 => Ex::N(sub(rng)),
-        1 => Ex::A(sub(rng), sub(rng)),
-        2 => Ex::O(sub(rng), sub(rng)),
-        3 => Ex::I(sub(rng), sub(rng)),
-        4 => if xor { Ex::X(sub(rng), sub(rng)) } else { Ex::A(sub(rng), sub(rng)) },
-        5 => Ex::K(sub(rng), sub(rng), sub(rng)),
-        _ => Ex::O(sub(rng), sub(rng)),
-    }
-}
-
-type RawCnf = Vec<Vec<(u64, bool)>>;
-fn gen_cnf(rng: &mut Rng, nv: usize, size: usize, nonempty: bool) -> RawCnf {
-    let edge = rng.chance(1, 4);
-    let ncl = if edge && !nonempty && rng.chance(1, 6) { 0 } else { 1 + rng.range(0, size) };
-    (0..ncl).map(|_| {
-        let len = if edge { *rng.pick(&[0usize, 1, 1, 2, 3, 4]) } else { rng.range(1, 4) };
-        let len = if nonempty { len.max(1) } else { len };
-        let mut c: Vec<(u64, bool)> = (0..len).map(|_| (rng.below(nv as u64), rng.coin())).collect();
-        if edge && len >= 2 && rng.chance(1, 3) { c[1] = (c[0].0, !c[0].1); } // complementary
-        if edge && len >= 2 && rng.chance(1, 3) { c[len - 1] = c[0]; }       // repeated
-        c
-    }).collect()
-}
-fn cnf_str(c: &RawCnf, s: &mut String) {
-    s.push_str(&format!(" {}", c.len()));
-    for cl in c {
-        s.push_str(&format!(" {}", cl.len()));
-        for (v, p) in cl { s.push_str(&format!(" {v} {}", *p as u8)); }
-    }
-}
-fn cnf_parse(t: &[&str], i: &mut usize) -> RawCnf {
-    let ncl: usize = t[*i].parse().unwrap();
-    *i += 1;
-    (0..ncl).map(|_| {
-        let len: usize = t[*i].parse().unwrap();
-        *i += 1;
-        (0..len).map(|_| { let v = t[*i].parse().unwrap(); let p = t[*i + 1] != "0"; *i += 2; (v, p) }).collect()
-    }).collect()
-}
-fn to_cnf(c: &RawCnf) -> Cnf {
-    let v: Vec<Vec<Literal>> = c.iter().map(|cl| cl.iter().map(|(v, p)| Literal::new(VarLabel::new(*v), *p)).collect()).collect();
-    Cnf::new(&v)
-}
-fn cnf_eval(c: &RawCnf, a: usize) -> bool {
-    c.iter().all(|cl| cl.iter().any(|(v, p)| ((a >> v) & 1 == 1) == *p))
-}
 fn elim_order(cnf: &Cnf, kind: u64) -> VarOrder {
     match kind { 0 => cnf.linear_order(), 1 => cnf.min_fill_order(), _ => cnf.force_order() }
 }
